@@ -209,6 +209,11 @@ def gen_case(rng):
     extra = {}
     if op in ("add", "sub") and rng.random() < 0.8:
         bd = bd + ((ad - bd) % 2)        # mostly same parity
+    if op in ("add", "sub") and ac and rng.random() < 0.12:
+        # nearly cancelling operands: b = -+a up to relative perturbations 1e-9 .. 1e-4 of single coefficients
+        sgn = -1.0 if op == "add" else 1.0
+        bc = [float(sgn * c * (1 + float(rng.choice([-1, 1])) * 10.0 ** float(rng.uniform(-9, -4)) * (rng.random() < 0.7))) for c in ac]
+        bd = ad
     if op in ("smul", "rsmul"):
         extra["c"] = float(rng.choice([0.0, 1.0, -1.0, 2.5, -0.125, float(rng.normal()), 3.0]))
     if op == "get":
